@@ -770,44 +770,99 @@ def stage_lin(ctx, st):
             "-backends", st.get("backends", "rotate"), "-maxg", str(st.get("maxg", 4)), "-ops", str(st.get("ops", 3)), "-par", "4"]
     if st.get("gated"):
         args.append("-gated")
-    if st.get("sched"):
-        # behaviours of CloverConc generated by TLC (cached: they depend on spec/ only), replayed
-        # on the real code with gates at the store's Begin and Commit / Rollback
+    if st.get("sched") or st.get("sched_sim"):
+        # behaviours of CloverConc generated by TLC, replayed on the real code with gates at the
+        # store's Begin and Commit / Rollback.  Exhaustive emissions are cached (they depend on spec/
+        # only); simulated ones (three goroutines) are drawn afresh with the check's seed.
         recs = []
-        for cfg in st["sched"]:
+        for cfg in st.get("sched", []):
             recs += conc_emission(ctx, {"module": "MC_ConcEmit", "cfg": cfg, "workers": 8, "heap": "8g", "name": "conc-emit"})
+        for cfg in st.get("sched_sim", []):
+            with open(os.path.join(ctx.spec, cfg)) as f:
+                cfgtext = f.read()
+            per = max(1, n // 4)
+            r = tlc(ctx, "MC_ConcEmit", cfgtext, "concsim-" + cfg.replace(".cfg", ""), workers=4, heap="8g", timeout=900,
+                    extra=["-simulate", "num=%d" % per, "-depth", "10", "-seed", str(ctx.seed + st.get("seed_off", 0))])
+            got = []
+            for line in r["out"].splitlines():
+                if line.startswith('"CONC '):
+                    try:
+                        got.append(json.loads(json.loads(line)[5:]))
+                    except ValueError:
+                        pass
+            if not got or "Error:" in r["out"]:
+                raise Inconclusive("TLC simulation of %s produced no behaviours:\n%s" % (cfg, r["out"][-1500:]))
+            ctx.mc_runs.append({"config": cfg, "module": "MC_ConcEmit", "mode": "simulate", "states": r["generated"], "transitions": r["generated"],
+                                "ok": True, "wall_s": round(r["wall"], 1), "behaviours": len(got)})
+            recs += got
+        # the schedules the repairs are there for: behaviours that the model with the pre-repair write
+        # sets marks non-linearizable (exhaustive for two goroutines, simulated for three); all replayed
+        risky = []
+        for cfg in st.get("sched_risky", []):
+            risky += [r for r in conc_emission(ctx, {"module": "MC_ConcEmit", "cfg": cfg, "workers": 8, "heap": "8g", "name": "conc-emit"})
+                      if r.get("lin") is False]
+        for cfg, num in st.get("sched_sim_risky", []):
+            with open(os.path.join(ctx.spec, cfg)) as f:
+                cfgtext = f.read()
+            r = tlc(ctx, "MC_ConcEmit", cfgtext, "concsimrisky-" + cfg.replace(".cfg", ""), workers=8, heap="8g", timeout=900,
+                    extra=["-simulate", "num=%d" % (num // 8), "-depth", "10", "-seed", str(ctx.seed + st.get("seed_off", 0))])
+            seen = set()
+            total = 0
+            for line in r["out"].splitlines():
+                if line.startswith('"CONC '):
+                    total += 1
+                    if 'lin\\":false' in line and line not in seen:
+                        seen.add(line)
+                        risky.append(json.loads(json.loads(line)[5:]))
+            if total == 0 or "Error:" in r["out"]:
+                raise Inconclusive("TLC simulation of %s produced no behaviours:\n%s" % (cfg, r["out"][-1500:]))
+            ctx.mc_runs.append({"config": cfg, "module": "MC_ConcEmit", "mode": "simulate", "states": r["generated"], "transitions": r["generated"],
+                                "ok": True, "wall_s": round(r["wall"], 1), "behaviours": total, "marked_risky": len(seen)})
+        for r in risky:
+            r["risky"] = True
         import random
         rng = random.Random(ctx.seed * 104729 + st.get("seed_off", 0))
+
+        def readonly(op):
+            return op[0] in ("Find", "Count")
+
         def forceable(r):
             # bbolt: a writer whose commit has to remap the data file waits for the read transactions
             # that are open; a schedule that keeps an older reader open across a writer's whole
             # transaction cannot be forced with gates (it is not a behaviour bbolt has)
             if r["be"] != "bolt":
                 return True
-            for a in (0, 1):
-                b = 1 - a
-                if r["progs"][a][0] in ("Find", "Count") and r["progs"][b][0] not in ("Find", "Count") \
-                        and r["t0"][a] < r["t0"][b] and r["t1"][b] < r["t1"][a]:
-                    return False
+            G = len(r["progs"])
+            for a in range(G):
+                for b in range(G):
+                    if a != b and readonly(r["progs"][a]) and not readonly(r["progs"][b]) \
+                            and r["t0"][a] < r["t0"][b] and r["t1"][b] < r["t1"][a]:
+                        return False
             return True
+
+        def overlapping(r):
+            G = len(r["progs"])
+            return any(not (r["t1"][a] < r["t0"][b] or r["t1"][b] < r["t0"][a]) for a in range(G) for b in range(a + 1, G))
         recs = [r for r in recs if forceable(r)]
-        concurrent = [r for r in recs if not (r["t1"][0] < r["t0"][1] or r["t1"][1] < r["t0"][0])]
-        serial = [r for r in recs if r not in concurrent] if n >= len(recs) else []
+        concurrent = [r for r in recs if overlapping(r)]
+        serial = [r for r in recs if not overlapping(r)] if n >= len(recs) else []
         pick = concurrent if n >= len(concurrent) else rng.sample(concurrent, n)
-        pick = pick + serial
+        pick = pick + serial + risky
         spath = os.path.join(ctx.work, "sched-%s.json" % st["name"])
         with open(spath, "w") as f:
             json.dump(pick, f)
         args += ["-sched", spath]
-        ctx.log("sched: %d model behaviours (%d with overlapping transactions), %d replayed" % (len(recs), len(concurrent), len(pick)))
-        ctx.extra.setdefault("model_behaviours", {})[st["name"]] = {"terminal_states": len(recs), "concurrent": len(concurrent), "replayed": len(pick)}
+        ctx.log("sched: %d model behaviours (%d with overlapping transactions), %d replayed, of which %d marked risky by the pre-repair model" % (
+            len(recs), len(concurrent), len(pick), len(risky)))
+        ctx.extra.setdefault("model_behaviours", {})[st["name"]] = {"terminal_states": len(recs), "concurrent": len(concurrent),
+                                                                     "replayed": len(pick), "risky": len(risky)}
     msg = run_driver(ctx, args)
     ctx.log(msg.strip().splitlines()[-1])
     with open(stats) as f:
         sj = json.load(f)
     for k, v in sj.get("outcomes", {}).items():
         ctx.outcomes[k] = ctx.outcomes.get(k, 0) + v
-    if st.get("sched"):
+    if st.get("sched") or st.get("sched_sim"):
         oc = sj.get("outcomes", {})
         if oc.get("sched/stuck", 0) > max(2, oc.get("sched/replayed", 0) // 50):
             raise Inconclusive("%d scheduled replays got stuck" % oc.get("sched/stuck", 0))
